@@ -198,6 +198,18 @@ def run_case(case):
         r_other = mo.compute_matrices(tq + 2.0, pva, em)
         if r_other is None or np.abs(np.asarray(r_other[0], dtype=float) - z0).max() > 1e-9:
             v('c06-other-row', '%s: querying another present row gives a different answer' % kind)
+        # one object evaluated under BOTH altitude modes, in both orders, answers like a fresh object each time
+        for order_ in ((True, False, True), (False, True, False)):
+            both = make(true_measured(kind, p, lever, rates))
+            for wa2 in order_:
+                got = both.compute_matrices(tq, pva, ems[wa2])
+                ref = make(true_measured(kind, p, lever, rates)).compute_matrices(tq, pva, ems[wa2])
+                if got is None or any(np.shape(a_) != np.shape(b_) or np.abs(np.asarray(a_, float) - np.asarray(b_, float)).max() > 0
+                                      for a_, b_ in zip(got, ref)):
+                    v('c06-object-remembers-altitude-mode', '%s: an object evaluated with error models of both altitude '
+                      'modes (order %s) answers differently from a fresh object in mode with_altitude=%s (shapes %s vs %s)'
+                      % (kind, order_, wa2, [np.shape(a_) for a_ in (got or ())], [np.shape(b_) for b_ in ref]))
+                    break
         # one object queried repeatedly in arbitrary time order answers like a fresh object each time
         seq_obj = make(true_measured(kind, p, lever, rates), times=(tq - 1.0, tq, tq + 2.0))
         for tt in (tq + 2.0, tq, tq - 1.0, tq + 0.5, tq, tq + 2.0):
